@@ -46,3 +46,19 @@ CHECKS["C02"] = dict(
           "tuple in canonical order computed by the model. distinct_nontrivial = distinct non-empty states with >= 2 elements."),
     assumptions=["reference model engine/view_model.hpp", "g++ 12 -O0, ASan+UBSan, assertions enabled", "iterators of two different views are never compared (out of domain)"],
 )
+
+CHECKS["C05"] = dict(
+    title="assignment through views",
+    level="model_checking",
+    engine="E1",
+    claim=("All ordered (destination, source) pairs of equal-extent view states of two same-shaped roots (E1 state sets, depth 2; thorough adds the larger shapes and lifts the per-class cap) x 14 "
+           "assignment forms are executed on the real views; the oracle compares the WHOLE destination and source buffers including guards with the model-computed expectation, so a write "
+           "outside the view, a wrong order, a modified source or a rebound view is visible. Complete enumeration within the bound."),
+    jobs=lambda tier: ranks_jobs("assignmc", "san", tier, shards_thorough=4),
+    rule=("state sets from the E1 search (C01 alphabet, depth 2) on array_ref roots over guard buffers; pairs grouped by (rank, extents); forms: dst=src, dst=std::move(src), dst=+src, "
+          "dst=array<short>, dst=array<short>(), dst.elements()=src.elements(), =std::move(src).elements(), dst={initializer list}, dst=std::vector (1-D), dst.fill(x), dst.swap(src), "
+          "swap(dst,src), std::move(dst)=src, dst=src.element_moved(); expectation computed from the model's index->offset maps in canonical order. distinct_nontrivial = pairs whose "
+          "destination has >= 2 elements; evaluations = (pair, form) executions."),
+    assumptions=["destination and source live in different roots (disjoint elements, as the property requires)", "forms that materialise an owning temporary are applied only to sources without an empty dimension (owning arrays collapse leading sizes)",
+                 "reference model engine/view_model.hpp", "g++ 12 -O0 ASan+UBSan, assertions enabled"],
+)
